@@ -276,6 +276,23 @@ func (w *World) beginBlock(gap time.Duration) opResult {
 
 func (w *World) endBlock() opResult {
 	res := w.endBlock0()
+	// how many aggregates of bridge-deposit queries this block made (their reports always count for the time based
+	// rewards), and how many aggregates in all
+	nDeposit, nAll := 0, 0
+	if res.result == 0 {
+		func() {
+			defer func() { _ = recover() }()
+			for _, a := range w.s.Oraclekeeper.GetAggregatedReportsByHeight(w.ctx, uint64(w.height)) {
+				nAll++
+				for _, qd := range w.bridgeQueries[:2] {
+					if string(a.QueryId) == string(utils.QueryIDFromData(qd)) {
+						nDeposit++
+					}
+				}
+			}
+		}()
+	}
+	res.params = []*big.Int{bi(int64(nDeposit)), bi(int64(nAll))}
 	if recordEvents {
 		for _, e := range w.ctx.EventManager().Events() {
 			line := e.Type
